@@ -1,4 +1,104 @@
-(* placeholder until WalkProofs.v lands *)
-From Coercion.Tree Require Import Walk.
-Theorem c19_placeholder : True. Proof. exact I. Qed.
-Print Assumptions c19_placeholder.
+(* C19 - walk.Plan visits the plan and every checks group, block, sequence and action exactly once, in
+   execution order, each with the exact chain of its ancestors, and stops at once when the consumer
+   stops.
+
+   Model: Coercion.Tree.Walk (walk_plan, a transcription of workflow/utils/walk/walk.go in
+   yield-passing style over an arbitrary consumer [yield : item -> S -> bool * S]; walk_all is what a
+   consumer that never stops receives; walk_stop p k what the consumer stopping at its k-th call
+   receives, with the number of calls made).
+   Specification: Coercion.Tree.WalkSpec (InPlan by index lookup, exec_lt by lexicographic keys,
+   ancestors), written without reference to the walk.
+
+   Nil elements of the Blocks / Sequences / Actions slices: the model skips them exactly as the code
+   does (`if x == nil { continue }`), and the specification's lookup regards index i of a slice as
+   holding no object when the element is nil (following elements keep their indices).  All theorems
+   below therefore hold for EVERY plan; there is no side condition. *)
+From Coq Require Import Sorted.
+From Coercion.Base Require Import Plan.
+From Coercion.Tree Require Import Walk WalkSpec WalkProofs WalkTheorems WalkExamples.
+
+(* (a) exactly once: no object is visited twice *)
+Theorem c19_no_duplicates :
+  forall p : plan, NoDup (map fst (walk_all p)).
+Proof. exact walk_all_nodup. Qed.
+Print Assumptions c19_no_duplicates.
+
+(* (b) every object of the plan and nothing else *)
+Theorem c19_visits_exactly_the_objects :
+  forall (p : plan) (o : obj), In o (map fst (walk_all p)) <-> InPlan p o.
+Proof. exact walk_all_mem. Qed.
+Print Assumptions c19_visits_exactly_the_objects.
+
+(* (c) in execution order: plan < bypass < pre < cont < blocks in order < post < deferred, likewise
+   inside a block; a group before its actions; a sequence before its actions *)
+Theorem c19_execution_order :
+  forall p : plan, StronglySorted exec_lt (map fst (walk_all p)).
+Proof. exact walk_all_sorted. Qed.
+Print Assumptions c19_execution_order.
+
+(* (d) each with the exact chain of ancestors from the plan down to its parent *)
+Theorem c19_chain_is_ancestors :
+  forall p : plan, Forall (fun it : item => snd it = ancestors (fst it)) (walk_all p).
+Proof. exact walk_all_chain. Qed.
+Print Assumptions c19_chain_is_ancestors.
+
+(* (e1) it stops immediately, for ANY consumer: the walk hands the consumer the items of walk_all p one
+   by one ([feed], Walk.v: `andthen (yield x s) (feed r)`) and makes no call after one answered false *)
+Theorem c19_stops_with_any_consumer :
+  forall (S : Type) (yield : item -> S -> bool * S) (p : plan) (s : S),
+    walk_plan yield p s = feed yield (walk_all p) s.
+Proof. exact @walk_plan_feed_all. Qed.
+Print Assumptions c19_stops_with_any_consumer.
+
+(* ... the same without reference to [feed]: the calls made are related by [fed], an inductive
+   description of "called on a prefix, every answer but possibly the last is true, the result is the
+   last answer" *)
+Theorem c19_stops_with_any_consumer_rel :
+  forall (S : Type) (yield : item -> S -> bool * S) (p : plan) (s : S),
+    fed yield (walk_all p) s (fst (walk_plan yield p s)) (snd (walk_plan yield p s)).
+Proof. exact @walk_plan_fed. Qed.
+Print Assumptions c19_stops_with_any_consumer_rel.
+
+(* (e2) every early-stop position: the consumer that answers false at its k-th call (k = 0: never) is
+   called min k n times and receives exactly the first k items *)
+Theorem c19_every_stop_position :
+  forall (p : plan) (k : nat),
+    walk_stop p k =
+    if Nat.eqb k 0 then (length (walk_all p), walk_all p)
+    else (Nat.min k (length (walk_all p)), firstn k (walk_all p)).
+Proof. exact walk_stop_all. Qed.
+Print Assumptions c19_every_stop_position.
+
+(* (f) the specification is complete: any list of items that is sorted in execution order, contains
+   exactly the objects of the plan and gives each its ancestors IS the walk *)
+Theorem c19_specification_determines_the_walk :
+  forall (p : plan) (l : list item),
+    StronglySorted exec_lt (map fst l) ->
+    (forall o : obj, In o (map fst l) <-> InPlan p o) ->
+    Forall (fun it : item => snd it = ancestors (fst it)) l ->
+    l = walk_all p.
+Proof. exact walk_all_unique. Qed.
+Print Assumptions c19_specification_determines_the_walk.
+
+(* ---- not vacuous: a concrete irregular plan (19 objects; nil elements, nil and empty slices) ---- *)
+Example c19_ex_walk : walk_all ex_plan = ex_walk.
+Proof. vm_compute. reflexivity. Qed.
+Example c19_ex_stop_7 : walk_stop ex_plan 7 = (7, firstn 7 ex_walk).
+Proof. vm_compute. reflexivity. Qed.
+Example c19_ex_stop_beyond : walk_stop ex_plan 40 = (19, ex_walk).
+Proof. vm_compute. reflexivity. Qed.
+Example c19_ex_other_consumer : walk_plan ex_yield ex_plan 0 = (false, 9).
+Proof. vm_compute. reflexivity. Qed.
+Example c19_ex_inplan : InPlan ex_plan (OAct (ASeq 0 2 1)) /\ ~ InPlan ex_plan (OAct (ASeq 0 2 0))
+                        /\ ~ InPlan ex_plan (OBlock 1) /\ InPlan ex_plan (OChecks (SBlock 2) GCont).
+Proof.
+  repeat split.
+  - eexists. split; [reflexivity|discriminate].
+  - intros [q [Hq H]]. vm_compute in Hq. injection Hq as <-. apply H. reflexivity.
+  - intros H. apply H. reflexivity.
+  - discriminate.
+Qed.
+Example c19_ex_order : exec_lt (OAct (ASeq 0 2 1)) (OChecks (SBlock 0) GPost)
+                       /\ exec_lt (OChecks (SBlock 0) GPost) (OBlock 2)
+                       /\ exec_lt (OBlock 2) (OChecks SPlan GDeferred).
+Proof. vm_compute. intuition. Qed.
